@@ -1,17 +1,20 @@
 #!/bin/bash
-# tools/try_seed.sh <Cxx> <patch.diff> [tier]  — apply a seeded change to a scratch worktree, run the check against it, undo.
-P=$1; PATCH=$2; TIER=${3:-quick}
-WT=/tmp/seedwt/$P
+# tools/try_seed.sh <Cxx> <patch.diff> [tier]  — apply a seeded change to a scratch worktree of goom HEAD, run the check of this
+# /verif tree (the one the script lives in) against it, undo.  Exit code: the check's (1 = VIOLATION reported), 3 = patch does not apply.
+V=$(cd "$(dirname "$0")/.." && pwd)
+P=$1; PATCH=$(readlink -f $2); TIER=${3:-quick}
+TAG=$(echo "$V" | md5sum | cut -c1-6)
+WT=/tmp/seedwt/$TAG-$P
 mkdir -p /tmp/seedwt
 [ -d $WT ] || git -C /repo worktree add --detach $WT HEAD >/dev/null 2>&1
 git -C $WT reset -q --hard 2>/dev/null; git -C $WT checkout -q --detach $(git -C /repo rev-parse HEAD); git -C $WT checkout -q -- . ; git -C $WT clean -fdq
-git -C $WT apply $PATCH 2>/dev/null || git -C $WT apply --3way $PATCH >/dev/null 2>&1 || { echo "PATCH DOES NOT APPLY"; echo "try_seed rc=3"; exit 3; }
+git -C $WT apply $PATCH 2>/dev/null || git -C $WT apply --3way $PATCH >/dev/null 2>&1 || { echo "PATCH DOES NOT APPLY"; git -C $WT reset -q --hard; echo "try_seed rc=3"; exit 3; }
 git -C $WT reset -q 2>/dev/null
-cd /verif
-EV=evidence/$P.json; cp $EV /tmp/seedwt/$P.evidence.bak 2>/dev/null
-GOOM_REPO=$WT VERIF_BUILD=/verif/build/seed-$P timeout 3000 python3 check.py $P --tier $TIER; rc=$?
-cp /tmp/seedwt/$P.evidence.bak $EV 2>/dev/null
+cd $V
+EV=evidence/$P.json; cp $EV /tmp/seedwt/$TAG-$P.evidence.bak 2>/dev/null
+GOOM_REPO=$WT VERIF_BUILD=$V/build/seed-$P timeout ${TRY_SEED_TIMEOUT:-3000} python3 check.py $P --tier $TIER; rc=$?
+cp /tmp/seedwt/$TAG-$P.evidence.bak $EV 2>/dev/null
 git -C $WT reset -q --hard 2>/dev/null; git -C $WT clean -fdq
-git -C /verif checkout -- lean/GoomVerif/Gen 2>/dev/null
+git -C $V checkout -- lean/GoomVerif/Gen 2>/dev/null
 echo "try_seed rc=$rc"
 exit $rc
